@@ -223,9 +223,10 @@ def startIfUnstarted (st : State) : Outcome :=
   else (drvStart st).bind fun st => .ok { st with mode := { st.mode with started := true } }
 
 /-- `tickit_term_set_output_fd(tt, fd)`: `tt->outfd = fd` (a pipe: `TIOCGWINSZ` fails, the size is left alone),
-    then the driver is started if it was not. -/
-def setOutputFd (st : State) (fd : Int) : Outcome :=
-  startIfUnstarted { st with outfd := if set_output_fd_stores then fd else st.outfd }
+    then the driver is started if it was not.  `postFd` is the state after the assignment. -/
+def postFd (st : State) (fd : Int) : State := { st with outfd := if set_output_fd_stores then fd else st.outfd }
+
+def setOutputFd (st : State) (fd : Int) : Outcome := startIfUnstarted (postFd st fd)
 
 /-- `tickit_term_set_output_func`: the previous function, if any, is told `(NULL, 0)`. -/
 def setOutputFunc (st : State) : Outcome :=
